@@ -31,8 +31,10 @@ def tree(c):
         for v in vals:
             params = getattr(v, "params", None)
             enc = v.to_ical() if hasattr(v, "to_ical") else v
-            # the decoded text too: two different texts can have the same encoded form (backslash-N and LF)
-            props.append((k, type(v).__name__, sorted(params.items()) if params else [], enc, v if isinstance(v, str) else None))
+            # the decoded text too (after the documented normalisations backslash-N -> LF, CRLF -> LF,
+            # which serialisation applies to a literal backslash-N)
+            txt = v.replace(BS + "N", "\n").replace("\r\n", "\n") if isinstance(v, str) else None
+            props.append((k, type(v).__name__, sorted(params.items()) if params else [], enc, txt))
     return (c.name, props, [tree(s) for s in c.subcomponents])
 
 
@@ -72,6 +74,16 @@ TYPED = [
     "dtstart;value=date:20200101", "Summary;Language=en:x", "X-unknown;X-P=1,2,\"3;4\":v", "REQUEST-STATUS:2.0;Success",
     "RECURRENCE-ID;RANGE=THISANDFUTURE:19960120T120000Z", "COMPLETED:19960401T150000Z", "CLASS:", "DTSTAMP:20200101T000000",
 ]
+# what the TEXT-valued pool lines denote (RFC 5545 3.3.11: backslash-n and backslash-N are newlines)
+EXACT_TEXT = {
+    "X-WR-CALNAME;VALUE=TEXT:a\\nb": "a\nb",
+    "DESCRIPTION:line1\\Nline2\\\\N": "line1\nline2" + BS + "N",
+    "SUMMARY:a\\;b\\,c\\\\d\\:e": "a;b,c" + BS + "d:e",
+    "Summary;Language=en:x": "x",
+    "REQUEST-STATUS:2.0;Success": "2.0;Success",
+    "CLASS:": "",
+}
+assert all(k in TYPED for k in EXACT_TEXT), [k for k in EXACT_TEXT if k not in TYPED]
 # lines that must be rejected (not accepted => nothing to check) or dropped in a VEVENT
 BROKEN = ["DTSTART:2020", "DURATION:P", "PRIORITY:high", "GEO:1", "RRULE:FREQ=NOPE", "TZOFFSETTO:+2500", "DTSTART;TZID=:20200101T000000",
           ":novalue", "NAME WITH SPACE:v", "X;P:novalue", "X;=v:1", "DTSTART;VALUE=DATE:20200230"]
@@ -101,8 +113,26 @@ def h_typed(i: int, j: int, container: int, second: bool) -> bool:
     lines = [TYPED[_c(i, 0, len(TYPED) - 1)]]
     if second:
         lines.append(TYPED[_c(j, 0, len(TYPED) - 1)])
-    r = stable(_wrap(lines, container))
-    return r is None or r is True
+    text = _wrap(lines, container)
+    r = stable(text)
+    if container == 2:
+        # inside a STANDARD observance most pool lines make the VTIMEZONE itself unusable and the
+        # whole input is legitimately rejected
+        return r is None or r is True
+    if r is not True:
+        return False     # every pool line is well-formed RFC 5545 (or accepted leniently): it must be accepted
+    comp = Component.from_ical(text)
+    names = set(ln.split(":")[0].split(";")[0].upper() for ln in lines)
+    if comp.errors or sorted(comp.keys()) != sorted(names):
+        return False
+    # the first parse recovers exactly what a well-formed TEXT denotes
+    for ln in lines:
+        if ln in EXACT_TEXT:
+            got = comp[ln.split(":")[0].split(";")[0]]
+            got = got[0] if isinstance(got, list) else got
+            if str(got) != EXACT_TEXT[ln]:
+                return False
+    return True
 
 
 def h_broken(i: int, j: int, container: int) -> bool:
